@@ -169,3 +169,14 @@ def state_after(steps, dims, psi0):
     for st in steps:
         psi = L.apply_to_state(psi, st.matrix, st.wires, dims)
     return psi
+
+
+def superop_of(steps, dims):
+    """Superoperator (row-major vec convention) of a program of U / keyless K steps: product of sum_k K (x) conj(K)."""
+    D = L.dim_of(dims)
+    S = np.eye(D * D, dtype=complex)
+    for st in steps:
+        ks = [st.matrix] if isinstance(st, U) else st.kraus
+        full = [L.embed(k, st.wires, dims) for k in ks]
+        S = L.superop(full) @ S
+    return S
